@@ -48,8 +48,17 @@ BAD_READ = {
 def render_item(item):
     kind = item[0]
     if kind == "card":
-        _, num, imp, vol, dangling = item
-        return f"{num} 0 {'-99' if dangling else '-1'} imp:n={imp} vol={vol}"
+        _, num, imp, vol, dangling = item[:5]
+        depth = item[5] if len(item) > 5 else 0
+        first = "-99" if dangling else "-1"
+        if not depth:
+            return f"{num} 0 {first} imp:n={imp} vol={vol}"
+        # a geometry tree of `depth` levels: depth + 1 half-spaces intersected (`a b c d` is held as ((a b) c) d)
+        words = [first] + ["-1"] * depth
+        lines = [f"{num} 0 " + " ".join(words[:12])]
+        for k in range(12, len(words), 12):
+            lines.append("      " + " ".join(words[k : k + 12]))
+        return "\n".join(lines) + f"\n      imp:n={imp} vol={vol}"
     if kind == "read":
         _, f, beh = item
         return f"read file=f{f}.txt" if beh == "ok" else BAD_READ[beh]
@@ -130,6 +139,24 @@ def rich_problem(end=None, fail=None, first=None):
     return "rich problem\n" + "\n".join(cells) + "\n\n" + "\n".join(surfs) + "\n\n" + "\n".join(data) + "\n\n"
 
 
+def big_cell_text(n, number=1):
+    """one cell card bounded by the spheres 1..n (continuation lines of ten words)"""
+    words = [f"-{i}" for i in range(1, n + 1)]
+    lines = [f"{number} 0 " + " ".join(words[:10])]
+    for i in range(10, n, 10):
+        lines.append("      " + " ".join(words[i : i + 10]))
+    lines.append("      imp:n=1")
+    return "\n".join(lines)
+
+
+def big_problem(n):
+    """a valid problem whose first cell is the inside of n nested spheres (a geometry tree of n - 1 levels), the second
+    the shell up to an outer sphere, the third the rest of the world"""
+    surfs = [f"{i} so {i}" for i in range(1, n + 2)]
+    cells = [big_cell_text(n), f"2 0 {n} -{n + 1} imp:n=1", f"3 0 {n + 1} imp:n=0"]
+    return f"problem with a cell of {n} surfaces\n" + "\n".join(cells) + "\n\n" + "\n".join(surfs) + "\n\nmode n\nnps 100\n\n"
+
+
 def make_object(kind, text):
     """direct construction of one object from an Input, the way a user adds a card by hand"""
     from montepy.input_parser.mcnp_input import ReadInput
@@ -137,7 +164,13 @@ def make_object(kind, text):
     from montepy.data_inputs import universe_input, lattice_input, fill
 
     if kind == "cell":
-        return montepy.Cell(_input(text, "CELL"))
+        return montepy.Cell(_lines_input(text, "CELL"))
+    if kind == "bigcell":  # a cell with very many surfaces (described by its class and numbers only: see Runner.do)
+        return montepy.Cell(_lines_input(text, "CELL"))
+    if kind == "bigcellcopy":  # a free-standing cell and a deep copy of it: the copy is what is described
+        import copy
+
+        return copy.deepcopy(montepy.Cell(_lines_input(text, "CELL")))
     if kind == "surface":
         return _surf(text)
     if kind == "data":
@@ -210,6 +243,14 @@ def _input(text, block):
     from montepy.input_parser.block_type import BlockType
 
     return Input([text], getattr(BlockType, block))
+
+
+def _lines_input(text, block):
+    """an Input of several lines (a card with continuation lines)"""
+    from montepy.input_parser.mcnp_input import Input
+    from montepy.input_parser.block_type import BlockType
+
+    return Input(text.split("\n"), getattr(BlockType, block))
 
 
 def _surf(text):
@@ -518,9 +559,19 @@ class Runner:
             with open(path, "w") as fh:
                 fh.write(rich_problem(opts.get("end"), opts.get("fail"), opts.get("first")))
             return self._loaded(pid, path)
+        if name == "readbig":  # [readbig, pid, {"n": surfaces of the big cell, "slot": n}]
+            _, pid, opts = op
+            d = self._read_dir(opts.get("slot"), index)
+            path = os.path.join(d, "f0.txt" if opts.get("slot") is not None else "big.i")
+            with open(path, "w") as fh:
+                fh.write(big_problem(opts["n"]))
+            return self._loaded(pid, path)
         if name == "make":  # [make, kind, text]: build one object straight from an Input
             obj = make_object(op[1], op[2])
-            desc = describe_object(obj)
+            if op[1].startswith("bigcell"):  # formatting a very deep tree is quadratic: class, number, parameters only
+                desc = {"cls": type(obj).__name__, "number": repr(obj.old_number), "imp": str(obj.importance).replace("\n", ";")}
+            else:
+                desc = describe_object(obj)
             out = {"t": "made", "cls": desc["cls"], "sha": hashlib.sha256(json.dumps(desc, sort_keys=True, default=str).encode()).hexdigest()[:20]}
             if self.keep_text:
                 out["desc"] = desc
@@ -681,6 +732,74 @@ def class_state_changes():
     return sorted(out)
 
 
+def interp_snapshot():
+    """settings of the INTERPRETER (not of MontePy) that every later call of the process sees.  Name -> a value that is
+    cheap to take and to compare within one process.  Taken when a run starts and after every operation; only the
+    names that changed are reported (with the value now when it is a plain number or string)."""
+    import atexit
+    import decimal
+    import gc
+    import locale
+    import logging
+    import random
+    import threading
+
+    ctx = decimal.getcontext()
+    snap = {
+        "sys.getrecursionlimit": sys.getrecursionlimit(),
+        "sys.getswitchinterval": sys.getswitchinterval(),
+        "sys.path": tuple(sys.path),
+        "sys.meta_path": len(sys.meta_path),
+        "sys.path_hooks": len(sys.path_hooks),
+        "sys.gettrace": sys.gettrace() is not None,
+        "sys.getprofile": sys.getprofile() is not None,
+        "sys.excepthook": sys.excepthook is sys.__excepthook__,
+        "sys.displayhook": sys.displayhook is sys.__displayhook__,
+        "sys.stdout": sys.stdout is sys.__stdout__,
+        "sys.tracebacklimit": getattr(sys, "tracebacklimit", None),
+        "sys.dont_write_bytecode": sys.dont_write_bytecode,
+        "sys.get_int_max_str_digits": sys.get_int_max_str_digits() if hasattr(sys, "get_int_max_str_digits") else None,
+        "os.getcwd": os.getcwd(),
+        "os.environ": hash(frozenset(os.environ.items())),
+        "warnings.filters": tuple((f[0], getattr(f[1], "pattern", f[1]), f[2].__name__, getattr(f[3], "pattern", f[3]), f[4]) for f in warnings.filters),
+        "warnings.showwarning": getattr(warnings.showwarning, "__module__", None) == "warnings",
+        "locale.setlocale": locale.setlocale(locale.LC_ALL),
+        "decimal.getcontext": (ctx.prec, ctx.rounding, ctx.Emin, ctx.Emax, ctx.capitals, ctx.clamp),
+        "random.getstate": hash(random.getstate()),
+        "gc.isenabled": gc.isenabled(),
+        "gc.get_threshold": gc.get_threshold(),
+        "threading.stack_size": threading.stack_size(),
+        "threading.active_count": threading.active_count(),
+        "logging.root": (logging.root.level, len(logging.root.handlers), logging.root.manager.disable),
+        "tempfile.tempdir": tempfile.tempdir,
+        "signal.handlers": tuple(signal.getsignal(s) in (signal.SIG_DFL, signal.SIG_IGN, signal.default_int_handler) for s in (signal.SIGINT, signal.SIGTERM, signal.SIGUSR1)),
+        "atexit._ncallbacks": atexit._ncallbacks() if hasattr(atexit, "_ncallbacks") else None,
+    }
+    np = sys.modules.get("numpy")
+    if np is not None:
+        snap["numpy.geterr"] = tuple(sorted(np.geterr().items()))
+        snap["numpy.get_printoptions"] = tuple(sorted((k, repr(v)) for k, v in np.get_printoptions().items()))
+        st = np.random.get_state()
+        snap["numpy.random.get_state"] = (st[0], hash(st[1].tobytes()), st[2], st[3], st[4])
+    return snap
+
+
+_INTERP0 = None  # the settings when the current run started (set by execute)
+
+
+def interp_changes():
+    """names of the interpreter settings that differ from what they were when the run started (`name=value` for plain
+    numbers and strings)"""
+    if _INTERP0 is None:
+        return []
+    now = interp_snapshot()
+    out = []
+    for k in now:
+        if now[k] != _INTERP0.get(k):
+            out.append(f"{k}={now[k]}" if isinstance(now[k], (int, float, str)) and not k.endswith(("environ", "getstate")) else k)
+    return sorted(out)
+
+
 def world_state():
     from montepy.input_parser import input_syntax_reader
     from montepy.input_parser.parser_base import MCNP_Parser
@@ -705,7 +824,14 @@ def world_state():
     else:  # one queue for the process: key 0
         q = [[0, ids(rq)]] if ids(rq) else []
     latched = sorted(name for name, cell, declared in _SETTERS if cell.cell_contents is not declared)
-    return {"queue": q, "log": len(MCNP_Parser.log) > 0, "latched": latched, "class_state": class_state_changes()}
+    return {
+        "queue": q,
+        "log": len(MCNP_Parser.log) > 0,
+        "latched": latched,
+        "class_state": class_state_changes(),
+        "limit": sys.getrecursionlimit(),
+        "interp": interp_changes(),
+    }
 
 
 def execute(run, tmp=None):
@@ -714,6 +840,8 @@ def execute(run, tmp=None):
     if own:
         tmp = tempfile.mkdtemp(prefix="c17_")
     obs = []
+    global _INTERP0
+    _INTERP0 = interp_snapshot() if run.get("state") else None
     try:
         r = Runner(tmp, keep_text=bool(run.get("text")), count_parses=bool(run.get("count_parses")))
         for op in run["ops"]:
